@@ -266,6 +266,25 @@ func H20_two_requests() {
 		}
 	}
 	vrtAssert("C20.connection_survives_callback_error", !c.isClosed())
+	// Unsubscribe of the second request's filter: the first request's filter (which shares the leading level) stays
+	if string(filters[0]) != string(filters[1]) {
+		um := message.NewUnsubscribeMessage()
+		um.AddTopic(filters[1])
+		vrtAssert("C20.unsubscribe_call_ok", cln.Unsubscribe(um, done) == nil)
+		vrtQuiesce()
+		ureq, oku := vrtParse(c.peerTake())
+		if !oku || len(ureq) != 1 || ureq[0].Typ != specUNSUBSCRIBE {
+			vrtAssert("C20.unsubscribe_on_the_wire", false)
+			return
+		}
+		c.peerSend(specEncode(&specPkt{Typ: specUNSUBACK, ID: ureq[0].ID}))
+		vrtQuiesce()
+		before := calls
+		c.peerSend(specEncode(&specPkt{Typ: specPUBLISH, Topic: []byte("a/b"), Payload: []byte("m")}))
+		vrtQuiesce()
+		vrtAssert("C20.other_request_unaffected_by_unsubscribe", calls[0]-before[0] == 1)
+		vrtAssert("C20.nothing_after_unsubscribe", calls[1] == before[1])
+	}
 	vrtObserve("two", calls[0], calls[1])
 	vrtReach("C20.two_requests")
 	svc.stop()
